@@ -30,9 +30,12 @@ def gen(chk, tier):
     quick = tier == "quick"
     cases = []
     nst = 0
-    progs_list = qc.programs_small() + qc.programs_medium(rng, 8 if quick else 60, [(2, 2), (3, 1), (3, 2), (2, 3)] + ([] if quick else [(4, 2), (3, 3)]))
+    # three and four concurrent pushers/poppers (a Push can meet a lagging tail more than once)
+    fixed = [([], [["P1"], ["P2"], ["P3"]]), ([7], [["P1"], ["P2"], ["O"]]), ([], [["P1"], ["P2"], ["P3"], ["P4"]]),
+             ([7], [["P1"], ["O"], ["O"]]), ([], [["P1", "P5"], ["P2"], ["P3"]])]
+    progs_list = fixed + qc.programs_small() + qc.programs_medium(rng, 8 if quick else 60, [(2, 2), (3, 1), (3, 2), (2, 3)] + ([] if quick else [(4, 2), (3, 3)]))
     for pre, progs in progs_list:
-        n, scheds = qc.enum_schedules(pre, progs, "edges", 800 if quick else 20000)
+        n, scheds = qc.enum_schedules(pre, progs, "edges", (4000 if (pre, progs) in fixed else 800) if quick else 40000)
         nst += n
         for s in scheds:
             for t in range(len(progs)):
